@@ -140,7 +140,7 @@ enum { F_DUP_BOARD_ID, F_DUP_BOARD_UID, F_DUP_POINT_ID, F_DUP_SIGNAL_ID, F_DUP_P
 static const char *FNAME[F_N] = {"duplicate board id", "duplicate board unique-id", "duplicate point id", "duplicate signal id", "duplicate peripheral id", "duplicate segment id",
 	"duplicate reverser id", "duplicate train id", "duplicate point number on a board", "duplicate signal number on a board", "duplicate peripheral port on a board", "duplicate segment address on a board",
 	"duplicate reverser CV on a board", "DCC address shared by a train and an accessory", "DCC address shared by two accessories", "DCC address shared by two trains", "duplicate aspect id", "duplicate aspect value",
-	"initial value names no declared aspect", "accessory without aspects", "calibration with 8 values", "calibration with 10 values", "calibration value 127", "speed steps not 14/28/126", "function bit 32",
+	"initial value names no declared aspect", "accessory without aspects", "calibration not a list of 9 values (8 values, a scalar, nothing)", "calibration with 10 values", "calibration value 127", "speed steps not 14/28/126", "function bit 32",
 	"duplicated function bit", "track-file board missing from the board file", "duplicate feature number on a board", "DCC point id equal to a board point id"};
 #define POS 8
 /* returns 1 if the fault could be applied at position pos */
@@ -180,7 +180,9 @@ static int apply_fault(cm_model_t *m, int f, int pos) {
 	case F_INITIAL_UNDECLARED: if (pos == 0) { snprintf(B1->pb[0].initial, 24, "nosuch"); return 1; } if (pos == 1) { snprintf(B0->pd[0].initial, 24, "nosuch"); return 1; }
 		if (pos == 2) { snprintf(B2->sb[0].initial, 24, "nosuch"); return 1; } if (pos == 3) { snprintf(B2->per[0].initial, 24, "nosuch"); return 1; } return 0;
 	case F_NO_ASPECTS: if (pos == 0) { B1->pb[1].naspects = 0; return 1; } if (pos == 1) { B0->sd[0].naspects = 0; return 1; } if (pos == 2) { B2->per[1].naspects = 0; return 1; } if (pos == 3) { B0->pd[0].aspects[0].nports = 0; return 1; } return 0;
-	case F_CAL_8: if (pos == 0) { m->t[0].ncal = 8; return 1; } return 0;
+	case F_CAL_8: if (pos == 0) { m->t[0].ncal = 8; return 1; }
+		/* not a list at all: a scalar, nothing, a scalar followed by another key — as the LAST key of the train (peripherals dropped) and before the peripherals */
+		if (pos >= 1 && pos <= 3) { m->t[0].cal_form = pos; m->t[0].nper = 0; return 1; } if (pos >= 4 && pos <= 6) { m->t[0].cal_form = pos - 3; return 1; } return 0;
 	case F_CAL_10: if (pos == 0) { m->t[0].ncal = 10; m->t[0].cal[9] = 126; return 1; } return 0;
 	case F_CAL_127: if (pos < 2) { m->t[0].cal[pos ? 8 : 0] = 127; return 1; } return 0;
 	case F_STEPS: if (pos == 0) { m->t[0].steps = 27; return 1; } if (pos == 1) { m->t[1].steps = 128; return 1; } if (pos == 2) { m->t[1].steps = 0; return 1; } return 0;
